@@ -45,9 +45,11 @@ type recorder struct {
 	errs map[string]string
 }
 
-func newRecorder() (*recorder, error) {
+func newRecorder() (*recorder, error) { return newRecorderOn("127.0.0.1:0") }
+
+func newRecorderOn(addr string) (*recorder, error) {
 	rc := &recorder{reqs: map[string][]*rawhttp.Message{}, errs: map[string]string{}}
-	s, err := rawhttp.NewServer(func(req *rawhttp.Message, reqErr error, conn net.Conn, br *bufio.Reader) bool {
+	s, err := rawhttp.NewServerOn(addr, func(req *rawhttp.Message, reqErr error, conn net.Conn, br *bufio.Reader) bool {
 		tok := ""
 		if v := req.Get("X-Tok"); len(v) > 0 {
 			tok = v[0]
@@ -211,7 +213,9 @@ func mixCase(rng *rand.Rand, s string) string {
 }
 
 var c02Names = []string{"Proxy-Status", "Upgrade-Insecure-Requests", "Connection-Id", "Keep-Alive-Hint", "Trailer-Info", "Te-Extension", "Proxy-Features", "X-Api-Key", "X-Goog-Iap-Jwt-Assertion",
-	"Accept", "Accept-Language", "Cookie", "X-Forwarded-For", "Via", "X-Custom", "Authorization", "Cache-Control", "If-None-Match", "Referer", "Origin", "X-A_b.c~1", "Content-Type", "Range", "Forwarded", "X-Request-Id", "Pragma"}
+	"Accept", "Accept-Language", "Cookie", "X-Forwarded-For", "Via", "X-Custom", "Authorization", "Cache-Control", "If-None-Match", "Referer", "Origin", "X-A_b.c~1", "Content-Type", "Range", "Forwarded", "X-Request-Id", "Pragma",
+	// what a front end in front of the proxy (or a client pretending to be one) sends along
+	"X-Forwarded-Host", "X-Forwarded-Proto", "X-Forwarded-Port", "X-Real-Ip", "X-Original-Url", "X-Http-Method-Override", "X-Forwarded-Server"}
 
 var c02BodySizes = []int{0, 1, 2, 4095, 4096, 4097, 32767, 32768, 32769, 65535, 65536, 65537}
 
@@ -254,6 +258,16 @@ func genRequest(rng *rand.Rand, tok string, big bool) *genReq {
 			v := randValue(rng)
 			if strings.EqualFold(name, "Range") {
 				v = "bytes=0-" + strconv.Itoa(rng.Intn(100))
+			}
+			switch strings.ToLower(name) {
+			case "x-forwarded-host", "x-forwarded-server":
+				v = []string{"internal.example.net", "other-" + tok + ".example:8443", "[2001:db8::2]:81"}[rng.Intn(3)]
+			case "x-forwarded-proto":
+				v = []string{"https", "http", "wss"}[rng.Intn(3)]
+			case "x-original-url":
+				v = "/rewritten/" + tok + "?x=1"
+			case "x-http-method-override":
+				v = []string{"DELETE", "PUT", "PATCH"}[rng.Intn(3)]
 			}
 			if strings.EqualFold(name, "Accept") && rng.Intn(2) == 0 {
 				v = []string{"text/html", "text/html,application/xhtml+xml,application/xml;q=0.9,*/*;q=0.8", "application/json, text/html;q=0.1"}[rng.Intn(3)]
@@ -643,6 +657,7 @@ func C02(r *core.Run) {
 	}
 	c02H2(r, md, serverBin, agentBin)
 	c02Full(r, md, serverBin, agentBin)
+	c02BackendComesUpLate(r, md, agentBin)
 	<-slowDone
 	judgeProcs(r, true, server, agent)
 	killAll(agent, server)
@@ -1037,4 +1052,74 @@ func c02ExpectContinue(r *core.Run, addr string, rec *recorder) {
 	wg.Wait()
 	r.Add("expect_continue_requests", n)
 	r.Add("expect_continue_interim_100_seen_by_client", int(atomic.LoadInt64(&got100)))
+}
+
+// c02BackendComesUpLate: requests with bodies arrive while the backend port
+// refuses connections; the backend starts to listen a moment later.  A request
+// may fail (the client then gets a 502) - but whatever reaches the backend, by
+// whatever retry, has to be the complete, unaltered request.
+func c02BackendComesUpLate(r *core.Run, md *fakes.Metadata, agentBin string) {
+	px, err := fakes.NewProxy()
+	if err != nil {
+		r.Broken(err.Error())
+		return
+	}
+	defer px.Close()
+	px.ListWait = 30 * time.Millisecond
+	addr := fmt.Sprintf("127.0.0.1:%d", core.FreePort())
+	agent, err := startAgent(r, agentBin, "agent-late", md, px.URL(), addr, "b2late")
+	if err != nil {
+		r.Broken(err.Error())
+		return
+	}
+	defer agent.Kill()
+	for d := time.Now().Add(60 * time.Second); time.Now().Before(d) && px.Lists() == 0 && agent.Alive(); {
+		time.Sleep(10 * time.Millisecond)
+	}
+	if px.Lists() == 0 {
+		r.Inconclusive("C02 late-backend lane: the agent never polled")
+		return
+	}
+	rng := r.Rand("c02-late")
+	var gens []*genReq
+	for k := 0; k < 8; k++ {
+		g := &genReq{Tok: fmt.Sprintf("s%dlate%d", r.Seed, k), Method: []string{"POST", "PUT", "PATCH", "POST"}[k%4], Host: "late.example", Chunked: k%2 == 1}
+		g.Target = "/late/" + g.Tok
+		g.BodyLen = []int{300, 20000, 70000, 1, 4097}[k%5]
+		g.body = make([]byte, g.BodyLen)
+		rng.Read(g.body)
+		g.Chunks = []int{g.BodyLen}
+		g.Class = fmt.Sprintf("%s|backend-comes-up-late|body:%s|chunked=%v", g.Method, sizeClass(g.BodyLen), g.Chunked)
+		gens = append(gens, g)
+		px.Enqueue(g.Tok, g.wire(), "")
+		time.Sleep(20 * time.Millisecond)
+	}
+	rec, err := newRecorderOn(addr)
+	if err != nil {
+		r.Inconclusive("C02 late-backend lane: cannot listen on " + addr + ": " + err.Error())
+		return
+	}
+	defer rec.Srv.Close()
+	for _, g := range gens {
+		px.Wait(g.Tok, 10*time.Second)
+	}
+	time.Sleep(2500 * time.Millisecond) // a late retry, if any, has happened by now
+	reached := 0
+	for _, g := range gens {
+		r.Case(g.Class)
+		got, perr := rec.get(g.Tok)
+		if len(got) == 0 {
+			continue
+		}
+		reached++
+		if perr != "" {
+			r.Violate("C02:backend-parse-error:after-backend-came-up", fmt.Sprintf("a request that first met a refused connection reached the backend damaged: %s (body got %d of %d bytes)", perr, len(got[0].Body), g.BodyLen), g, nil)
+			continue
+		}
+		if bad := compareRequest(g, got[0]); len(bad) > 0 {
+			r.Violate("C02:"+diffKind(bad[0])+":after-backend-came-up", fmt.Sprintf("%s %s reached the backend after a refused connection: %s", g.Method, g.Target, strings.Join(bad, "; ")), g, nil)
+		}
+	}
+	r.Add("late_backend_requests_that_reached_the_backend", reached)
+	judgeProcs(r, true, agent)
 }
